@@ -6,6 +6,9 @@
 #define __CPROVER_decreases(...)
 #endif
 unsigned long g_k;      /* ghost index used by the spliced loop invariants (contracts/loops/store.json) */
+#ifdef V_MODEL_SECTFOR     /* the renamed definition leaves store.c's later uses of _sectFor without a declaration */
+struct Section; static struct Section *_sectFor(void *p);
+#endif
 #include "store.c"
 #include "vharness.h"
 #define V_STUB_BUG_UNREACHABLE
@@ -177,8 +180,13 @@ void h_sectPrepare_fixed(void)
 	VREACH();
 }
 
+#ifdef V_MODEL_SECTFOR
+static Section *g_the_section;
+local Section *_sectFor(Pointer p) { (void) p; return g_the_section; }
+#endif
 /* stoRecode on a fixed-size block: exactly that block's info byte gets the new code (the block is found through the
  * real page map macros: the harness lays one prepared section at the start of a heap of FixedSizePgGroup pages) */
+#ifdef V_MODEL_SECTFOR
 void h_stoRecode_fixed(void)
 {
 	INPUT(Length, q);       /* the block that is recoded */
@@ -195,11 +203,17 @@ void h_stoRecode_fixed(void)
 		x = sectPrepare(pg, FixedSizePgGroup, sz, true);
 		heapStart = (char *) pg; heapEnd = heapStart + FixedSizePgGroup * PgSize;
 		pgMap = map; pgMapSize = FixedSizePgGroup;
-		for (i = 0; i < FixedSizePgGroup; i++) map[i] = i == 0 ? PgBusyFirst : PgBusyFollow;
+		/* every page is marked "follow", so the sectFor() macro takes its slow path, _sectFor(), whose DEFINITION is
+		 * renamed on every run (splice _rename_def) and modelled below: it returns the one section of the heap */
+		for (i = 0; i < FixedSizePgGroup; i++) map[i] = PgBusyFollow;
+		g_the_section = x;
 		stoIsInit = 1; stoMustTag = true;
 		ASSUME(q < x->qmCount && g < x->qmCount && g != q && code <= QmCodeMask);
 		p = (Pointer) ((char *) x->data + q * sz);
 		before_g = x->info[g];
+		CHECK("harness: the block lies in the harness heap", isInHeap(p));
+		CHECK("harness: page map sends the block to the slow path", pgMap[pgNo(p)] != PgBusyFirst);
+		CHECK("harness: the section model answers", _sectFor(p) == x);
 		r = stoRecode(p, code);
 		CHECK("stoRecode returns its argument", r == p);
 		CHECK("stoRecode: the block's own info byte carries the new code", QmInfoCode(x->info[q]) == code);
@@ -207,6 +221,7 @@ void h_stoRecode_fixed(void)
 	}
 	VREACH();
 }
+#endif
 
 /* a mixed section of any admissible number of pages, as pieceGetMixed builds it */
 void h_sectPrepare_mixed(void)
